@@ -1654,6 +1654,8 @@ func rebuildImpl(args rebuildArgs, oldHashes map[string]string) (rebuildState, m
 			shouldWriteFiles := !log.HasErrors()
 
 			// Process all file operations in parallel
+			var failedMutex sync.Mutex
+			var failedWrites []string
 			waitGroup := sync.WaitGroup{}
 			waitGroup.Add(len(results) + len(toDelete))
 			for _, result := range results {
@@ -1670,6 +1672,7 @@ func rebuildImpl(args rebuildArgs, oldHashes map[string]string) (rebuildState, m
 							return
 						}
 					}
+					didWrite := false
 					if err := fs.MkdirAll(realFS, realFS.Dir(result.AbsPath), 0755); err != nil {
 						log.AddError(nil, logger.Range{}, fmt.Sprintf(
 							"Failed to create output directory: %s", err.Error()))
@@ -1681,7 +1684,14 @@ func rebuildImpl(args rebuildArgs, oldHashes map[string]string) (rebuildState, m
 						if err := ioutil.WriteFile(result.AbsPath, result.Contents, mode); err != nil {
 							log.AddError(nil, logger.Range{}, fmt.Sprintf(
 								"Failed to write to output file: %s", err.Error()))
+						} else {
+							didWrite = true
 						}
+					}
+					if !didWrite {
+						failedMutex.Lock()
+						failedWrites = append(failedWrites, result.AbsPath)
+						failedMutex.Unlock()
 					}
 				}(result)
 			}
@@ -1694,6 +1704,18 @@ func rebuildImpl(args rebuildArgs, oldHashes map[string]string) (rebuildState, m
 				}(absPath)
 			}
 			waitGroup.Wait()
+
+			// A path that could not be written is not an output file of this
+			// context (whatever is there was not put there by this build), so it
+			// must not be deleted as a stale output file by a later rebuild. Only
+			// remember what an earlier build may have written there.
+			for _, absPath := range failedWrites {
+				if oldHash, ok := oldHashes[absPath]; ok {
+					newHashes[absPath] = oldHash
+				} else {
+					delete(newHashes, absPath)
+				}
+			}
 		}
 		timer.End("Write output files")
 	}
